@@ -3,6 +3,7 @@ package sim
 import (
 	"fmt"
 	"sort"
+	"strings"
 
 	"github.com/mlange-42/ark/ecs"
 )
@@ -276,6 +277,7 @@ func (s *Sim) stepQuery(oq *OpenQuery) bool {
 			sort.Ints(miss)
 			s.queryViolation(oq, "missing", "query finished after %d entities, expected %d; missing labels %v", len(oq.Visited), len(oq.Expect), miss)
 		}
+		s.checkCountAfterEnd(oq, "after_end")
 		return false
 	}
 	oq.OnEntity = true
@@ -293,6 +295,34 @@ func (s *Sim) stepQuery(oq *OpenQuery) bool {
 	}
 	s.checkQueryData(oq, h, l)
 	return true
+}
+
+// checkCountAfterEnd: Count and EntityAt of a query that has just finished (or was just closed)
+// still describe the entities it matches: `for q.Next() {...}; n := q.Count()` is ordinary use.
+// The world has not changed since the query was created. A panic is accepted as a rejection.
+func (s *Sim) checkCountAfterEnd(oq *OpenQuery, when string) {
+	if s.lockDepth >= 63 {
+		return
+	}
+	s.C.Checks["query.count_after_end"]++
+	var c int
+	if p, _ := s.call(func() { c = oq.Q.Count() }); p {
+		return
+	}
+	if c != len(oq.Expect) {
+		s.queryViolation(oq, "count_"+when, "Count() of the query right %s = %d, the query matches %d entities", strings.ReplaceAll(when, "_", " "), c, len(oq.Expect))
+		return
+	}
+	if c > 0 {
+		var h ecs.Entity
+		i := (oq.Steps + c/2) % c
+		if p, _ := s.call(func() { h = oq.Q.EntityAt(i) }); p {
+			return
+		}
+		if l := s.labelOf(h); l <= 0 || !oq.Expect[l] {
+			s.queryViolation(oq, "entity_at_"+when, "EntityAt(%d) of the query right %s = %v (label %d), which does not match the filter", i, strings.ReplaceAll(when, "_", " "), h, l)
+		}
+	}
 }
 
 func (s *Sim) queryViolation(oq *OpenQuery, sig string, format string, args ...any) {
@@ -432,6 +462,7 @@ func (s *Sim) opCloseQuery(op *Op) {
 	oq.OnEntity = false
 	s.lockDepth--
 	s.C.Faults["early_close"]++
+	s.checkCountAfterEnd(oq, "after_close")
 	s.tracef("%d CloseQuery", s.OpIdx)
 }
 
